@@ -2,27 +2,50 @@ use proc_macro2::TokenStream;
 use quote::quote;
 use syn::{Field, Ident, Index};
 
-pub fn tuple_exprs(fields: &[&Field], method_ident: &Ident) -> Vec<TokenStream> {
+pub fn tuple_exprs(
+    fields: &[&Field],
+    trait_ident: &Ident,
+    method_ident: &Ident,
+) -> Vec<TokenStream> {
     let mut exprs = vec![];
+    let receiver = receiver(method_ident);
 
     for i in 0..fields.len() {
         let i = Index::from(i);
-        // generates `self.0.add(rhs.0)`
-        let expr = quote! { self.#i.#method_ident(rhs.#i) };
+        // generates `Add::add(self.0, rhs.0)`
+        let expr = quote! {
+            derive_more::core::ops::#trait_ident::#method_ident(#receiver self.#i, rhs.#i)
+        };
         exprs.push(expr);
     }
     exprs
 }
 
-pub fn struct_exprs(fields: &[&Field], method_ident: &Ident) -> Vec<TokenStream> {
+pub fn struct_exprs(
+    fields: &[&Field],
+    trait_ident: &Ident,
+    method_ident: &Ident,
+) -> Vec<TokenStream> {
     let mut exprs = vec![];
+    let receiver = receiver(method_ident);
 
     for field in fields {
         // It's safe to unwrap because struct fields always have an identifier
         let field_id = field.ident.as_ref().unwrap();
-        // generates `x: self.x.add(rhs.x)`
-        let expr = quote! { self.#field_id.#method_ident(rhs.#field_id) };
+        // generates `x: Add::add(self.x, rhs.x)`
+        let expr = quote! {
+            derive_more::core::ops::#trait_ident::#method_ident(#receiver self.#field_id, rhs.#field_id)
+        };
         exprs.push(expr)
     }
     exprs
+}
+
+/// `&mut` for the `*_assign` methods (taking `&mut self`), nothing for the by-value ones.
+fn receiver(method_ident: &Ident) -> TokenStream {
+    if method_ident.to_string().ends_with("_assign") {
+        quote! { &mut }
+    } else {
+        quote! {}
+    }
 }
